@@ -184,6 +184,15 @@ func runC13(tier string, seed uint64, o *Out) error {
 		o.Line("%s", l)
 	}
 	o.Count("sql_patterns_" + fmt.Sprint(len(sqlPats)))
+	// (4b) LIKE combined with IS [NOT] NULL in one predicate (the rewriting steps must compose)
+	cl, err := sqlCombined()
+	if err != nil {
+		return err
+	}
+	for _, l := range cl {
+		o.Line("%s", l)
+	}
+	o.Count("sql_combined")
 	// (5) IS NULL / IS NOT NULL
 	ls, err := sqlIsNull()
 	if err != nil {
@@ -382,6 +391,99 @@ func sqlIsNull() ([]string, error) {
 		s.Stop()
 		for i, r := range rows {
 			out = append(out, fmt.Sprintf("C13 N having %s %s %s", tag, r.pres, b01(seen[i])))
+		}
+	}
+	return out, nil
+}
+
+// sqlCombined: predicates "x LIKE p AND y IS NOT NULL", "x LIKE p OR y IS NULL", "y IS NULL OR x LIKE p",
+// "x IS NOT NULL AND x LIKE p" in WHERE, CASE and HAVING. Line: C13 K <ctx> <form> <presX> <hex x> <presY> <hex pat> <result>
+func sqlCombined() ([]string, error) {
+	var out []string
+	type row struct{ px, x, py string }
+	rows := []row{{"P", "abc", "P"}, {"P", "abc", "N"}, {"P", "abc", "A"}, {"P", "zbc", "P"}, {"P", "zbc", "N"}, {"N", "", "P"}, {"A", "", "N"}, {"P", "a%c", "A"}, {"P", "", "P"}}
+	pats := []string{"a%", "%b_", "a_c", "%", "abc", "%c"}
+	forms := []struct{ name, tmpl string }{
+		{"like_and_notnull", "%s LIKE '%s' AND %s IS NOT NULL"},
+		{"like_or_null", "%s LIKE '%s' OR %s IS NULL"},
+		{"null_or_like", "%[3]s IS NULL OR %[1]s LIKE '%[2]s'"},
+		{"notnull_and_like_same", "%[1]s IS NOT NULL AND %[1]s LIKE '%[2]s'"},
+	}
+	mk := func(id int, r row, xname, yname string) map[string]any {
+		m := map[string]any{"id": id}
+		switch r.px {
+		case "P":
+			m[xname] = r.x
+		case "N":
+			m[xname] = nil
+		}
+		switch r.py {
+		case "P":
+			m[yname] = int64(7)
+		case "N":
+			m[yname] = nil
+		}
+		return m
+	}
+	for _, p := range pats {
+		for _, f := range forms {
+			pred := fmt.Sprintf(f.tmpl, "x", p, "y")
+			// WHERE
+			s := streamsql.New(streamsql.WithDiscardLog())
+			if err := s.Execute("SELECT id FROM stream WHERE " + pred); err != nil {
+				s.Stop()
+				return nil, fmt.Errorf("where %q: %v", pred, err)
+			}
+			for i, r := range rows {
+				res, err := s.EmitSync(mk(i, r, "x", "y"))
+				v := "0"
+				if err != nil {
+					v = "e"
+				} else if res != nil && len(res) > 0 {
+					v = "1"
+				}
+				out = append(out, fmt.Sprintf("C13 K where %s %s %s %s %s %s", f.name, r.px, hx(r.x), r.py, hx(p), v))
+			}
+			s.Stop()
+			// CASE
+			s = streamsql.New(streamsql.WithDiscardLog())
+			if err := s.Execute("SELECT id, CASE WHEN " + pred + " THEN 1 ELSE 0 END AS c FROM stream"); err != nil {
+				s.Stop()
+				return nil, fmt.Errorf("case %q: %v", pred, err)
+			}
+			for i, r := range rows {
+				res, err := s.EmitSync(mk(i, r, "x", "y"))
+				v := "e"
+				if err == nil && res != nil {
+					v = truthy(res["c"])
+				}
+				out = append(out, fmt.Sprintf("C13 K case %s %s %s %s %s %s", f.name, r.px, hx(r.x), r.py, hx(p), v))
+			}
+			s.Stop()
+			// HAVING over CountingWindow(1)
+			hpred := fmt.Sprintf(f.tmpl, "lx", p, "ly")
+			s = streamsql.New(streamsql.WithDiscardLog())
+			if err := s.Execute("SELECT last_value(x) AS lx, last_value(y) AS ly, last_value(id) AS lid FROM stream GROUP BY CountingWindow(1) HAVING " + hpred); err != nil {
+				s.Stop()
+				return nil, fmt.Errorf("having %q: %v", hpred, err)
+			}
+			var mu sync.Mutex
+			seen := map[int]bool{}
+			s.AddSyncSink(func(rs []map[string]any) {
+				mu.Lock()
+				for _, r := range rs {
+					seen[toInt(r["lid"])] = true
+				}
+				mu.Unlock()
+			})
+			for i, r := range rows {
+				s.Emit(mk(i, r, "x", "y"))
+			}
+			waitQuiet(func() int { mu.Lock(); defer mu.Unlock(); return len(seen) })
+			s.Stop()
+			for i, r := range rows {
+				out = append(out, fmt.Sprintf("C13 K having %s %s %s %s %s %s", f.name, r.px, hx(r.x), r.py, hx(p), b01(seen[i])))
+			}
 		}
 	}
 	return out, nil
